@@ -78,7 +78,7 @@ Proof.
   apply Forall_cons_iff in Hss. destruct Hss as [Hss0 Hss'].
   pose proof (sum_sizes_nonneg l Hsz') as Hsn.
   cbn [sum_sizes fold_right] in Hsum. fold (sum_sizes l) in Hsum.
-  destruct (rbe_add_ok s smp last a H0 Hle) as (s1 & o & smp1 & E & H01 & Hk1 & Hv1 & Hc).
+  destruct (rbe_add_ok s smp last a H0 Hle) as (s1 & o & smp1 & E & H01 & Hk1 & Hv1 & _ & Hc).
   cbn [fl_admissible] in Hfl. rewrite E in *. destruct Hfl as [Hfl1 Hfl].
   destruct (Hv1 Hv Hs0) as [Hv1' Hvs]. clear Hv1. rename Hv1' into Hv1.
   assert (Hseen1 : Forall u32 (keys (ssrcs s1))).
@@ -87,7 +87,7 @@ Proof.
   { destruct last as [t|]; [exists t; split; [exact Hle|exact HA]|].
     exists (a_time a). split; [lia|]. rewrite HA. apply AInv_init. }
   destruct HAt as (t & Ht & HAt).
-  destruct Hc as [[Ec ->]|(et & r & Het & Eu & ->)].
+  destruct Hc as [[Ec ->]|(et & r & _ & Het & Eu & ->)].
   - destruct (IH s1 smp1 (Some (a_time a)) prev (keys (ssrcs s1)) (used + a_size a) HM HC) as (s2 & outs & E2 & G2);
       try assumption; try lia.
     + split; [exact H01|]. split; [exact Hv1|]. rewrite Ec.
